@@ -88,6 +88,30 @@ def run_recorder(res, binname, args, wd, timeout=1500):
     return True
 
 
+def c16(res):
+    wd = workdir("C16")
+    q = res.tier == "quick"
+    shapes = os.path.join(wd, "shapes.out")
+    # the enumeration run also checks the algebraic laws of Side (S)
+    g = generate("MC_Shapes", "MC_Shapes_quick.cfg" if q else "MC_Shapes_thorough.cfg", wd, shapes, workers=16, timeout=6000)
+    res.gens.append(g)
+    if "is violated" in open(shapes).read():
+        raise ToolError("Shapes.tla law violated")
+    trace = os.path.join(wd, "trace.ndjson")
+    if not run_recorder(res, "c16", [shapes, res.tier, trace], wd, timeout=3000):
+        return res.finish("recorder crashed")
+    n, rej = validate("Trace_C16", trace, wd, timeout=6000, parallel=8)
+    res.validated = n - len(rej)
+    res.evaluations = n
+    res.samples = sample_lines(trace, maxlen=3000)
+    res.add_rejects(trace, rej, lambda r, f: "term=%s fails=%s" % (json.dumps(r.get("term"))[:140], "+".join(sorted(f))))
+    res.assumptions = ["integer parameters, quarter-turn rotations and lattice points only: membership is decided exactly; blend, loft "
+                       "interiors and non-right angles are not covered by the exact model"]
+    return res.finish("every shape term of the MC_Shapes.tla enumeration (11 primitives incl. all named axes and planes, under chains of up "
+                      "to two of 40 transforms, revolve, extrude, CSG of 1..7 inputs) built with the real structs and evaluated at random "
+                      "lattice points of [-3,3]^3; a case = one shape")
+
+
 def c20(res):
     wd = workdir("C20")
     res.models.append(model_check("EvalTrace", "EvalTrace.cfg", wd, workers=4, coverage=True))
@@ -407,7 +431,7 @@ def c11(res):
                       "Function and Shape APIs; a case = one call")
 
 
-CHECKS = {"C01": c01, "C03": c03, "C05": c05, "C06": c06, "C07": c07, "C09": c09, "C11": c11, "C12": c12, "C13": c13, "C02": c02, "C04": c04, "C10": c10, "C14": c14, "C15": c15, "C20": c20}
+CHECKS = {"C01": c01, "C03": c03, "C05": c05, "C06": c06, "C07": c07, "C09": c09, "C11": c11, "C12": c12, "C13": c13, "C02": c02, "C04": c04, "C10": c10, "C14": c14, "C15": c15, "C16": c16, "C20": c20}
 
 
 def replay(prop, path):
